@@ -394,7 +394,7 @@ func init() {
 			st := ex.Explore()
 			out.Executions, out.Transitions, out.MaxPoints, out.Exhaustive = st.Executions, st.Transitions, st.MaxPoints, st.Exhaustive
 			out.Extra["racy_selects"], out.Extra["racy_diverged"], out.Extra["owned_select_choices"] = st.RacySelects, st.RacyDiverged, st.Picks
-			out.Extra["select_retries"], out.Extra["unreachable_select_branches"] = st.Retries, st.Unreachable
+			out.Extra["select_retries"], out.Extra["unreachable_select_branches"], out.Extra["unowned_divergences"] = st.Retries, st.Unreachable, st.Unowned
 			for k, v := range st.PerBound {
 				out.PerBound[fmt.Sprint(k)] = v
 			}
